@@ -199,7 +199,7 @@ func stylePolicy(props ...string) []spec.Op {
 func everythingPolicy() []spec.Op {
 	ops := []spec.Op{{K: spec.KUGC},
 		{K: spec.KAllowStyles, Attrs: gen.CSSProperties, Matcher: "default", Scope: "global"},
-		{K: spec.KAllowAttrs, Attrs: []string{"href", "src", "cite", "rel", "target", "sandbox", "crossorigin", "id", "class", "title"}, Scope: "global"},
+		{K: spec.KAllowAttrs, Attrs: []string{"href", "src", "cite", "rel", "target", "sandbox", "crossorigin", "id", "class", "title", "srcset", "poster", "usemap", "longdesc", "background", "action", "formaction", "data", "ping", "sizes", "type", "download", "media"}, Scope: "global"},
 		{K: spec.KAllowElements, Names: []string{"iframe", "audio", "video", "source", "link", "svg", "math", "form", "input", "button", "select", "option", "textarea", "font", "center"}},
 		{K: spec.KAllowNoAttrs, Scope: "match", ElRe: `^my-`}, {K: spec.KAllowAttrs, Attrs: []string{"id"}, Re: `^[a-z]+$`, Scope: "match", ElRe: `^x-[a-z-]+$`},
 		{K: spec.KAllowAttrs, Attrs: []string{"x"}, Scope: "match", ElRe: `-`},
